@@ -152,23 +152,23 @@ def gen(rng, tier):
         cases.append(K.rand_program(rng, nd, rng.randrange(3, 16), weights=w))
     # cancel() of fired-but-paused Deferreds and of chainDeferred targets (nothing may be cancelled through a stale
     # waiting / chaining relation)
-    for _ in range(900 if tier == "quick" else 12000):
+    for _ in range(500 if tier == "quick" else 12000):
         cases.append(paused_cancel_scenario(rng))
     wp = {"add": 3, "cb": 3, "eb": 2, "cancel": 3, "pause": 1.5, "unpause": 1.2}
-    for _ in range(500 if tier == "quick" else 8000):
+    for _ in range(300 if tier == "quick" else 8000):
         cases.append(K.rand_program(rng, rng.randrange(2, 5), rng.randrange(4, 16), weights=wp))
     # callbacks that run kernel operations, incl. cancel() and late results, with all canceller kinds
     for _ in range(500 if tier == "quick" else 8000):
         cases.append(K.rand_script_program(rng, rng.randrange(1, 5), rng.randrange(2, 14), cancellers=True, pauses=True))
     # how a failure is handed to errback must not matter: bare errback() inside an except block, errback(None),
     # errback(Failure) instead of errback(exc)
-    cases += K.with_errback_forms(cases, rng, 0.25 if tier == "quick" else 0.12)
+    cases += K.with_errback_forms(cases, rng, 0.15 if tier == "quick" else 0.10)
     # Deferred debugging switched on / off in the middle of a history must not change anything observable
-    cases += K.with_debug_flips(cases, rng, 0.12 if tier == "quick" else 0.06)
+    cases += K.with_debug_flips(cases, rng, 0.06 if tier == "quick" else 0.04)
     # the exact type of a Deferred must not matter: a sample once more with trivial-subclass instances
-    cases += K.with_subclasses(cases, rng, 0.08 if tier == "quick" else 0.04)
+    cases += K.with_subclasses(cases, rng, 0.05 if tier == "quick" else 0.03)
     # Deferred debugging (defer.setDebugging(True)) must not change anything observable: a sample once more with it on
-    cases += K.with_debug(cases, rng, 0.12 if tier == "quick" else 0.08)
+    cases += K.with_debug(cases, rng, 0.08 if tier == "quick" else 0.05)
     return cases
 
 
@@ -398,7 +398,7 @@ SPEC = Spec(
          "that alphabet + {inner.cancel, inner.errback}; every history with a cancel of length <= 3 (8% of 4, 0.5% of 5; thorough <= 4, 10% of 5, 0.5% of 6) over the "
          "3-level alphabet {outer returns middle, middle returns pending, fire each, cancel each} x 3 (5) cancellers of "
          "the pending Deferred; 500 (10 000) forwarding scenarios (2-5 levels of fired-and-waiting Deferreds, cancel at "
-         "any level, late results); 25% (12%) of the cases containing an errback once more with the failure handed over as bare errback() inside an except block / errback(None) / errback(Failure); 900 (12 000) scenarios cancelling fired-but-paused Deferreds and chainDeferred targets, 500 (8 000) random programs with pause/unpause and cancel; 12% (6%) of all cases once more with defer.setDebugging flipped on/off in the middle; 12% (8%) of all these cases once more under defer.setDebugging(True); 1 200 (10 000) random programs of 3-15 operations over the "
+         "any level, late results); 15% (10%) of the cases containing an errback once more with the failure handed over as bare errback() inside an except block / errback(None) / errback(Failure); 500 (12 000) scenarios cancelling fired-but-paused Deferreds and chainDeferred targets, 300 (8 000) random programs with pause/unpause and cancel; 6% (4%) of all cases once more with defer.setDebugging flipped on/off in the middle; 8% (5%) of all these cases once more under defer.setDebugging(True); 1 200 (10 000) random programs of 3-15 operations over the "
          "kernel alphabet without pause/unpause on 1-4 Deferreds.  non-trivial = an AlreadyCalledError, a swallowed result, a "
          "canceller call or a CancelledError occurs; distinct by (case, observation)",
     trusted=["hand-written kernel model coq/Lib/DeferredK.v (tied by this correspondence run only)",
